@@ -113,7 +113,7 @@ def print_axioms(prop_file: str, timeout=900) -> tuple[bool, dict[str, list[str]
         ax[m.group(1)] = [a.strip() for a in m.group(2).split(",") if a.strip()]
     for m in re.finditer(r"'([^']+)' does not depend on any axioms", out):
         ax[m.group(1)] = []
-    ok = r.returncode == 0 and "error" not in out.lower().replace("errors", "")
+    ok = r.returncode == 0 and not re.search(r"^\S+:\d+:\d+: error", out, flags=re.M)
     return ok, ax, out
 
 
